@@ -76,3 +76,65 @@ Proof. exists toy_join, f19_client, f19_al. eexists. split; [exact f19_unrepaire
 Example C15_values_repaired : exists ts, tokens (reply_nointerp toy_join f19_client f19_al false) = Some ts /\ terminals ts = 1%nat.
 Proof. eexists. split; [exact f19_repaired|vm_compute; reflexivity]. Qed.
 Print Assumptions C15_raw_values_refuted.
+
+(* ------------------------------------------------------------------------------------------------------------------
+   The same for the WHOLE daemon (Model/Daemon.v: every client of every reachable state, every transport, every
+   interleaving of clients, device bytes, faults and clock steps; tied to the unmodified powermand by the per-pass replay
+   R-SIM).  What C15_stream assumes - callbacks only while the command is pending - is established here from the device
+   layer (completions: pending = queued actions; telemetry / diagnostics: Proofs/DeviceInvG.tg_live). *)
+From PM Require Import Model.Device Model.Daemon Proofs.DaemonLedger Proofs.DaemonFrame Proofs.DaemonPending.
+From PM Require Properties.C04 Properties.C07.
+Local Open Scope Z_scope.
+
+(* from start-up, after any list of passes: for every live client whose descriptor has not failed (no write error, no
+   bytes after end-of-file), the bytes written to it so far followed by the bytes still queued are the rendering of a
+   token list accepted by the recogniser (001 banner + prompt first, documented codes only, 3xx lines only inside a
+   reply, a prompt only after the banner or a terminal line, nothing after 101 but unprompted replies), at rest unless a
+   command is in progress, with exactly one terminal line per request line (the outstanding one = the command in
+   progress).  A client that half-closed its connection is included: it still gets its replies. *)
+Theorem C15_daemon_streams : forall expand_str ranged_sorted ranged_plain sorted rmatch compress short_circuit st now plans rs,
+  boot compress st -> Z.of_nat (length rs) < INT_MAX - 1 ->
+  exists st1 o, dinit st now plans = Ok (st1, o) /\
+    match drun expand_str ranged_sorted ranged_plain sorted rmatch compress short_circuit st1 rs [] with
+    | Ok (st', outs) =>
+        Forall (fun x => dc_bad x = false ->
+                  exists toks pst, dc_sent x ++ dc_to x = render toks /\ run PStart toks = Some pst /\
+                    (busy (dc x) = false -> at_rest pst = true) /\ (terminals toks + b2n (busy (dc x)) = dc_lines x)%nat)
+               (dm_clients st')
+    | Hang _ => True
+    | _ => False
+    end.
+Proof. exact daemon_streams. Qed.
+Print Assumptions C15_daemon_streams.
+
+(* dc_sent is the ledger of written bytes: serving client i appends exactly the bytes of that visit's write event *)
+Theorem C15_sent_ledger : forall expand_str ranged_sorted ranged_plain sorted st i ci st' evs dead x x',
+  cli_one expand_str ranged_sorted ranged_plain sorted st i ci = Ok (st', evs, dead) ->
+  nth_error (dm_clients st) i = Some x -> nth_error (dm_clients st') i = Some x' ->
+  dc_sent x' = dc_sent x ++ wrote_in evs.
+Proof. exact cli_one_sent. Qed.
+Print Assumptions C15_sent_ledger.
+
+(* non-vacuity: the daemon of C04's example; the client connects, asks `on n1`, half-closes; the device stays silent and
+   the action times out; the descriptor is writable throughout: the client is still there (reply owed), its descriptor
+   never failed, and everything written is banner, prompt, 308 line, 210 reply, prompt *)
+Example C15_daemon_nonvacuous :
+  let rounds := [ mkRound 1000000 true [] [];
+                  mkRound 1100000 false [mkCin false true true (Some (bslit "on n1" ++ [LF])) (Some 1000%nat)] [];
+                  mkRound 1200000 false [mkCin false true false (Some []) None] [];
+                  mkRound 7000000 false [] [];
+                  mkRound 7000001 false [mkCin false false true None (Some 20%nat)] [] ] in
+  match dinit C04.ex_st 1000000 [[ConnNow; ConnNow; ConnNow]] with
+  | Ok (st1, _) =>
+    match drun C04.ex_expand C04.ex_join C04.ex_join (fun l => l) C07.ex_rmatch C07.ex_compress false st1 rounds [] with
+    | Ok (st', _) =>
+        match dm_clients st' with
+        | [x] => dc_bad x = false /\ dc_eof x = true /\ busy (dc x) = false /\
+                 firstn 20 (dc_sent x) = firstn 20 (cl_out (dc x)) /\ (length (dc_sent x) = 39)%nat /\ Nat.ltb 20 (length (dc_to x)) = true
+        | _ => False
+        end
+    | _ => False
+    end
+  | _ => False
+  end.
+Proof. vm_compute. repeat split; try reflexivity. Qed.
